@@ -374,6 +374,8 @@ pub struct P08 {
     cont: Vec<(String, String, bool)>,
     /// the complete operator x boundary-operand table of C09, judged here for crashes only
     ops: crate::p09::P09,
+    /// the packet read sweep of C15 (every frame x every cut length x named and $n read sequences), judged here for crashes only
+    pk: crate::p15::P15,
 }
 impl P08 {
     pub fn new(tier: Tier) -> P08 {
@@ -381,7 +383,7 @@ impl P08 {
         let per = 1 + NKINDS + NKINDS * NKINDS + NKINDS * NKINDS * NKINDS;
         let bvals = boundary_values();
         let nv = bvals.len() as u64;
-        P08 { nb, n_kind: nb * per, n_bound: nb * (nv + nv * nv), bvals, rec: recursion_programs(), filt: filter_programs(), e2e: std::path::Path::new(&bin_path()).exists(), cont: container_programs(), ops: crate::p09::P09::new(tier) }
+        P08 { nb, n_kind: nb * per, n_bound: nb * (nv + nv * nv), bvals, rec: recursion_programs(), filt: filter_programs(), e2e: std::path::Path::new(&bin_path()).exists(), cont: container_programs(), ops: crate::p09::P09::new(tier), pk: crate::p15::P15::new(tier) }
     }
     fn n_e2e(&self) -> u64 {
         if self.e2e { self.filt.len() as u64 + 3 + LONG_STREAM.len() as u64 + self.cont.len() as u64 } else { 0 }
@@ -405,13 +407,16 @@ impl Property for P08 {
         "C08"
     }
     fn len(&self) -> u64 {
-        self.n_kind + self.n_bound + self.rec.len() as u64 + self.filt.len() as u64 + self.n_e2e() + self.ops.len()
+        self.n_kind + self.n_bound + self.rec.len() as u64 + self.filt.len() as u64 + self.n_e2e() + self.ops.len() + self.pk.len()
     }
     fn horizon_secs(&self) -> u64 {
         30
     }
     fn describe(&self, idx: u64) -> Value {
-        let base = self.len() - self.ops.len();
+        if idx >= self.len() - self.pk.len() {
+            return json!({"packet reads (crash-only)": self.pk.describe(idx - (self.len() - self.pk.len()))});
+        }
+        let base = self.len() - self.ops.len() - self.pk.len();
         if idx >= base {
             return json!({"operator application (crash-only)": self.ops.describe(idx - base)});
         }
@@ -450,7 +455,14 @@ impl Property for P08 {
         }
     }
     fn run(&self, idx: u64) -> CaseOut {
-        let base = self.len() - self.ops.len();
+        if idx >= self.len() - self.pk.len() {
+            let o = self.pk.run(idx - (self.len() - self.pk.len()));
+            return match &o.verdict {
+                Verdict::Violation(m) if o.class.ends_with("panic") => CaseOut::viol("packet-read panic", m.clone()).with_counts(o.states, o.transitions, o.traces),
+                _ => CaseOut::pass("packet-read no-crash").with_counts(o.states, o.transitions, o.traces),
+            };
+        }
+        let base = self.len() - self.ops.len() - self.pk.len();
         if idx >= base {
             let o = self.ops.run(idx - base);
             let kind = o.class.split(" -> ").next().unwrap_or("").to_string();
@@ -576,7 +588,7 @@ impl Property for P08 {
         }
     }
     fn rule(&self) -> String {
-        format!("every one of the {} builtins x arity 0..3 x every tuple of {} argument kinds {:?}; every builtin x every single and every pair of {} boundary values (integer limits, shift/precision boundaries, surrogate/astral code points, special floats, boundary strings, invalid UTF-8 byte arrays, mixed arrays); {} recursion/frame/locals programs (direct recursion of arity 1-4 with 0-3 locals to depths around 4096 and unbounded, mutual/closure/non-tail recursion, functions with up to 256 locals called at stack heights around the limit, literals exhausting the operand stack); {} filter programs (break/continue/return at every position of actions and end actions, every truthiness representative as pattern with and without an action, filters inside functions/blocks/loops/filters, failing patterns and actions) run on a two-packet stream through an in-process copy of main.rs's filter loop and through the binary; exit statuses through the binary; containers nested 10 .. 200000 deep and containers that contain themselves, dropped / compared / hashed / rendered (never printed when self-containing) through the binary; output builtins and diagnostics with stdout / stderr on a full device. Oracle: never a panic, abort, signal or hang. the complete operator x boundary-operand table of C09 is re-run with the crash-only oracle. (The generated program spaces of C02, C04, C05 also report crashes.)", self.nb, NKINDS, KIND_NAMES, self.bvals.len(), self.rec.len(), self.filt.len())
+        format!("every one of the {} builtins x arity 0..3 x every tuple of {} argument kinds {:?}; every builtin x every single and every pair of {} boundary values (integer limits, shift/precision boundaries, surrogate/astral code points, special floats, boundary strings, invalid UTF-8 byte arrays, mixed arrays); {} recursion/frame/locals programs (direct recursion of arity 1-4 with 0-3 locals to depths around 4096 and unbounded, mutual/closure/non-tail recursion, functions with up to 256 locals called at stack heights around the limit, literals exhausting the operand stack); {} filter programs (break/continue/return at every position of actions and end actions, every truthiness representative as pattern with and without an action, filters inside functions/blocks/loops/filters, failing patterns and actions) run on a two-packet stream through an in-process copy of main.rs's filter loop and through the binary; exit statuses through the binary; containers nested 10 .. 200000 deep and containers that contain themselves, dropped / compared / hashed / rendered (never printed when self-containing) through the binary; output builtins and diagnostics with stdout / stderr on a full device. Oracle: never a panic, abort, signal or hang. the complete operator x boundary-operand table of C09 and the complete packet read sweep of C15 (every frame of its link x network x transport grid incl. QinQ, cut at every length, every named and $n read sequence) are re-run with the crash-only oracle. (The generated program spaces of C02, C04, C05 also report crashes.)", self.nb, NKINDS, KIND_NAMES, self.bvals.len(), self.rec.len(), self.filt.len())
     }
     fn bounds(&self) -> Value {
         json!({"builtin_kind_calls": self.n_kind, "builtin_boundary_calls": self.n_bound, "recursion_programs": self.rec.len(), "filter_programs": self.filt.len(), "binary_runs": self.n_e2e()})
